@@ -52,6 +52,11 @@ type Zlisp struct {
 
 	// API use, since infix is already default at repl
 	WrapLoadExpressionsInInfix bool
+
+	// sandboxed is set by NewZlispSandbox: no access to files,
+	// processes, the environment or the import path, not even through
+	// StandardSetup's builders or the include special form.
+	sandboxed bool
 }
 
 // allow clients to establish a callback to
@@ -90,7 +95,9 @@ func (env *Zlisp) Close() error {
 // NewZlispSandbox returns a new *Zlisp instance that does not allow the
 // user to get to the outside world
 func NewZlispSandbox() *Zlisp {
-	return NewZlispWithFuncs(SandboxSafeFunctions())
+	env := NewZlispWithFuncs(SandboxSafeFunctions())
+	env.sandboxed = true
+	return env
 }
 
 // NewZlispWithFuncs returns a new *Zlisp instance with access to only the given builtin functions
@@ -185,6 +192,7 @@ func (env *Zlisp) Clone() *Zlisp {
 	dupenv.showGlobalScope = env.showGlobalScope
 	dupenv.WrapLoadExpressionsInInfix = env.WrapLoadExpressionsInInfix
 	dupenv.booter = env.booter
+	dupenv.sandboxed = env.sandboxed
 	return dupenv
 }
 
@@ -217,6 +225,7 @@ func (env *Zlisp) Duplicate() *Zlisp {
 	dupenv.showGlobalScope = env.showGlobalScope
 	dupenv.WrapLoadExpressionsInInfix = env.WrapLoadExpressionsInInfix
 	dupenv.booter = env.booter
+	dupenv.sandboxed = env.sandboxed
 
 	return dupenv
 }
